@@ -76,6 +76,17 @@ DETECTED = {
     'C18_c': ('C18', {'C18': '4/4'}, 'MISSED as built: layouts were C, Fortran, doubly strided, negative strides; layouts with exactly one unit stride added'),
     'C19_c': ('C19', {'C19': '7/7'}, 'as built (empty sentence with an end tag)'),
     'C20_c': ('C20', {'C20': '3/3'}, 'as built (integer band width)'),
+    # ---- round d (ten properties; after the audits of DESIGN §13)
+    'C01_d': ('C01', {'C01': '5/5', 'C03': '32/15'}, 'as built (dict_ndl skips outcome-less events)'),
+    'C02_d': ('C02', {'C02': '30/32'}, 'reported as built, but the check needed 50+ minutes (hundreds of hanging calls, each waited for in full, and shrinking of hangs): the pool now shortens the deadline after three full timeouts and C02 does not shrink hangs (6.6 min)'),
+    'C03_d': ('C03', {'C03': '25/26', 'C08': '13/14'}, 'as built (np.resize fills the rows of new outcomes with old data, r2b continuation)'),
+    'C04_d': ('C04', {'C04': '26/17', 'C07': '2/2'}, 'as built (chunk windows counted in file lines: needs a frequency column — a dimension added after the generator audit)'),
+    'C05_d': ('C05', {'C05': '3/3'}, 'as built (threading with n_jobs=1 swallows the worker error)'),
+    'C07_d': ('C07', {'C07': '4/4', 'C15': '3/3'}, 'as built (csv.writer quoting of a double quote)'),
+    'C10_d': ('C10', {'C10': '4/4'}, 'as built (empty map treated as no rule)'),
+    'C12_d': ('C12', {'C12': '28/28', 'C03': '40/25'}, 'MISSED as built by C12 (C03 caught it): the further-learning-step clause was only run with dict_ndl; now also with ndl.ndl threading / openmp continuing from the matrix'),
+    'C16_d': ('C16', {'C16': '3/3'}, 'as built (cached attribute template shared between calls)'),
+    'C17_d': ('C17', {'C17': '89/98', 'C05': '40/43'}, 'as built (scratch chunk file in the system temp dir left behind by a failing conversion job)'),
 }
 
 
